@@ -292,6 +292,9 @@ func extractDid(st sdk.KVStore, ex *Extracted) {
 				ex.M.Did[did] = &DidEntry{Tomb: true, Seq: d.Sequence}
 			} else {
 				ex.Flat[k] = "empty;seq=0"
+				// an entry that every reader takes for "never existed": what a deactivation leaves behind when it stores
+				// sequence 0 (no transaction and no simulated genesis writes such an entry on purpose)
+				ex.prob("C05", "did.entry_reads_as_absent", did, "the registry holds an entry for %s with an empty document and sequence 0: a tombstone that reads as absent", did)
 			}
 			if d.Document != nil {
 				bz, _ := d.Document.Marshal()
